@@ -7,7 +7,7 @@ ValidityMonotone is checked by TLC as an action property on every validated trac
 valid, the run manifest's all_valid and ResultsManager.is_valid(name) to be the conjunction of the members' verdicts."""
 import json
 
-from checks import c09, runfam
+from checks import c09, runfam, mcrun
 from lib import common, scratch
 from lib.tlc import MachineryError
 
@@ -43,7 +43,7 @@ def aggregation(rep, tier):
 def main(tier):
     n = 700 if tier == "quick" else 12000
     return runfam.run(PID, tier, groups=("core", "control", "validity"), judged=JUDGED, ncases=n, seed_salt=400,
-                      pre=lambda rep: aggregation(rep, tier))
+                      pre=lambda rep: (aggregation(rep, tier), mcrun.run_pool(rep, tier, {"valid"}, PID)))
 
 
 def replay(path):
